@@ -321,7 +321,7 @@ func (g *Graph) RetKindOf(r *ast.ReturnStmt) RetKind {
 					}
 				}
 			}
-			s = "local:" + v.Name() + "<" + TypeStr(v.Type()) + ">"
+			s = "local:" + f.LocalName(v) + "<" + TypeStr(v.Type()) + ">"
 		}
 		if ok, _ := g.Dominated(p, "eq("+s+",nil)"); ok {
 			return RetSuccess
